@@ -40,7 +40,7 @@ def _on_alarm(signum, frame):
     raise _Watchdog()
 
 
-CASE_TIMEOUT = float(os.environ.get("VERIF_CASE_TIMEOUT", "45"))
+CASE_TIMEOUT = float(os.environ.get("VERIF_CASE_TIMEOUT", "20"))
 
 
 class HarnessError(Exception):
@@ -188,9 +188,18 @@ def guarded(oracle, case, stats):
     try:
         return _guarded(oracle, case, stats)
     except _Watchdog:
-        # four orders of magnitude above the normal cost of a case: the code under test hangs or explodes on this input
-        raise Violation(case, "the code under test did not finish within %.0f s on this case (normal cost: milliseconds) - hang or super-linear blow-up" % CASE_TIMEOUT,
-                        terminal=True)
+        # a budget hit alone is inconclusive (the machine may be loaded): the case is run again, alone, with a much longer limit;
+        # only a second trip - four to five orders of magnitude above the normal cost of a case - is reported as a hang
+        if armed:
+            signal.setitimer(signal.ITIMER_REAL, CASE_TIMEOUT * 3)
+            try:
+                r = _guarded(oracle, case, NullStats())
+                stats.label("slow-case-finished-on-retry(inconclusive)")
+                return r
+            except _Watchdog:
+                pass
+        raise Violation(case, "the code under test did not finish within %.0f s, and again not within %.0f s when re-run alone (normal cost: milliseconds) - hang or "
+                              "super-linear blow-up" % (CASE_TIMEOUT, CASE_TIMEOUT * 3), terminal=True)
     finally:
         if armed:
             signal.setitimer(signal.ITIMER_REAL, 0)
